@@ -644,6 +644,28 @@ func (c *Ctx) evalBoolFn(fn *ssa.Function, k int64, other bool) (result bool, ok
 			default:
 				undecidable = true
 			}
+		case *ssa.Lookup:
+			// membership in a package-level set literal: supported[flag]
+			kk, isDerived := derived[x.Index]
+			if !isDerived {
+				return
+			}
+			entries, okTable := c.globalMapEntries(x.X)
+			if !okTable || x.CommaOk {
+				undecidable = true
+				return
+			}
+			val := false
+			if !other {
+				for _, e := range entries {
+					if n, isC := constInt(e[0]); isC && n == kk {
+						if bv, isB := constBool(e[1]); isB {
+							val = bv
+						}
+					}
+				}
+			}
+			bools[x] = val
 		case *ssa.Call:
 			f := staticCallee(&x.Call)
 			if (isFn(f, "strings", "ContainsRune") || isFn(f, "strings", "IndexRune")) && len(x.Call.Args) == 2 && x.Call.Args[1] == ssa.Value(param) {
